@@ -16,6 +16,7 @@ WITNESSES = {
     "W2ScratchCarving": "a scratch cannot be carved again while a temporary taken from it is alive: E0499",
     "W3SourceNotClone": "a Source cannot be cloned; a second stream must be branched explicitly: E0599",
     "W4NoDanglingTemporaries": "a temporary carved from a scratch cannot outlive the buffer owning the bytes: E0515",
+    "W5BackendTagOfTemporaries": "a DFT temporary taken from scratch cannot be typed for another backend than the module that sized it: E0277",
 }
 _RESULT = {}
 
